@@ -55,6 +55,7 @@ func (f *c07Factory) Quirks() c07Quirks {
 		// log end and trimming the old prefix; not driven there.
 		q.AdoptAboveLEOOK = false
 		q.AppendDefaultsTS = false
+		q.ApplyBelowLEOLenient = true
 	}
 	return q
 }
